@@ -165,8 +165,10 @@ def check(ctx):
         # the advance happens on every path of the thinning branch: its path condition is a
         # prefix of the slicing call's condition (not nested under e.g. len(idx) > 0)
         guard = [a for a in th_guard or ()]
+        # (the slicing call sits under one more condition -- "something was kept" -- than
+        # the counter advance)
         ok_adv = (val == ("op", "+", cfield, size_t) and size_t is not None
-                  and list(cond) == guard[:len(cond)] and len(cond) <= 1)
+                  and list(cond) == guard[:len(cond)] and len(cond) == len(guard) - 1)
     ctx.ob("C08.R2", app, "the state counter advances by the chunk size exactly once on "
                           "every path through the thinning branch (also when nothing of "
                           "the chunk is kept)", ok_adv,
